@@ -26,7 +26,7 @@ DRIVER = 'Driver/C17.lean'
 REQUIRED_THEOREMS = ['CfVerif.C17.' + n for n in (
     'mc_ends_stopped', 'mc_ends_stopped_current', 'mc_no_deadlock', 'mc_unrepaired_counterexample_takeoff',
     'mc_unrepaired_counterexample_land', 'hover_stream_period', 'hover_stream_period_current', 'height_integrates',
-    'primitive_displacement', 'sleep_is_exact', 'go_is_move',
+    'primitive_displacement', 'sleep_is_exact', 'blocking_primitive_tracks', 'go_is_move',
     'turn_displacement', 'circle_displacement', 'hl_goto_targets_position_with_duration', 'hl_move_is_goto', 'hl_position_is_sum',
     'hl_ends_stopped', 'hl_ends_stopped_current', 'hl_unrepaired_counterexample', 'gen_mc_protected', 'gen_hl_protected', 'gen_axes')]
 TRUSTED = ['harness/corr/c17.py extractor + correspondence',
